@@ -6,7 +6,7 @@
 From Coq Require Import ZArith List Bool Permutation.
 From Coq Require PrimFloat.
 From Centro Require Import Base.Sx Base.PropFloat Model.PropHeap Model.Propagate Spec.PropSpec Spec.PropCheck
-     Proofs.PropPotential Proofs.PropGrid Proofs.PropKey Proofs.PropHeapInv Proofs.PropHeapKey Proofs.PropDijkstra Proofs.PropFuel.
+     Proofs.PropPotential Proofs.PropGrid Proofs.PropKey Proofs.PropHeapInv Proofs.PropHeapKey Proofs.PropDijkstra Proofs.PropFuel Proofs.PropLabels.
 Import ListNotations.
 Open Scope Z_scope.
 
@@ -149,6 +149,18 @@ Theorem C03_dijkstra_sound : forall key image labels mask m n weight lo d,
     x = neg_one \/ (x = PrimFloat.zero /\ 0 < labv labels v) \/ reach image mask m n weight labels v x.
 Proof. exact dijkstra_sound. Qed.
 Print Assumptions C03_dijkstra_sound.
+
+(* labels_sound: every output label is the input label at a seed and otherwise 0 or the label of a
+   masked seed connected to the pixel by an 8-connected path inside the mask *)
+Theorem C03_labels_sound : forall key image labels mask m n weight lo d,
+  shape labels m n -> (forall v, inr m n v -> 0 <= labv labels v) ->
+  propagate key image labels mask m n weight = Some (lo, d) ->
+  forall v, inr m n v ->
+    let l := get2 0 lo (fst v) (snd v) in
+    (0 < labv labels v /\ l = labv labels v) \/
+    (labv labels v = 0 /\ (l = 0 \/ conn mask m n labels v l)).
+Proof. exact labels_sound. Qed.
+Print Assumptions C03_labels_sound.
 
 (* the fuel of the model's loop always suffices: the out-of-fuel result never occurs, so
    C03_dijkstra_sound applies to every well-shaped input *)
